@@ -242,6 +242,10 @@ def forward_aliases(fn, local, limit=12):
                         and s[2][1][1] == [l] and s[1][0] not in out:
                     out.add(s[1][0])
                     work.append(s[1][0])
+                elif s[0] == "=" and len(s[1]) == 1 and s[2][0] == "cast" and s[2][1].startswith("PointerCoercion") \
+                        and s[2][2][0] in ("c", "m") and s[2][2][1] == [l] and s[1][0] not in out:
+                    out.add(s[1][0])
+                    work.append(s[1][0])
     return out
 
 
